@@ -237,3 +237,68 @@ func rsbEnumNameConflict(w *World) {
 		w.floor("enum-name conflict reports in "+fn.Name, n, 1)
 	}
 }
+
+// RFC (C27): the frame-size accounting of option marshalling is never dropped. Value.marshal,
+// MessageValue.marshal and marshalFramed return the encoded buffer together with the number of
+// length-prefix bytes that will be trimmed later; an enclosing length-delimited message must
+// subtract exactly that count from its own prefix. A call that discards the count (binds it to _)
+// — e.g. on the group path, which has no prefix of its own but may *contain* prefixed messages —
+// makes the enclosing prefix too long: the options bytes written into the descriptor are malformed.
+// Computed: all functions/methods of package ir whose results are ([]byte, int) and whose name
+// contains "marshal"; every static call site must bind the int result to a variable.
+func rfcFrameCountNotDropped(w *World) {
+	w.rule("RFC")
+	p := w.pkg("experimental/ir")
+	if p == nil {
+		return
+	}
+	info := p.TypesInfo
+	counted := func(f *types.Func) bool {
+		if f == nil || f.Pkg() != p.Types || !strings.Contains(strings.ToLower(f.Name()), "marshal") {
+			return false
+		}
+		sig, ok := f.Type().(*types.Signature)
+		if !ok || sig.Results().Len() != 2 {
+			return false
+		}
+		if sl, ok := sig.Results().At(0).Type().Underlying().(*types.Slice); !ok || !types.Identical(sl.Elem(), types.Typ[types.Byte]) {
+			return false
+		}
+		bt, ok := sig.Results().At(1).Type().Underlying().(*types.Basic)
+		return ok && bt.Kind() == types.Int
+	}
+	n := 0
+	for _, b := range allFuncBodies(p) {
+		if b.Lit != nil {
+			continue
+		}
+		ast.Inspect(b.Body, func(x ast.Node) bool {
+			switch s := x.(type) {
+			case *ast.AssignStmt:
+				if len(s.Rhs) != 1 || len(s.Lhs) != 2 {
+					return true
+				}
+				c, ok := ast.Unparen(s.Rhs[0]).(*ast.CallExpr)
+				if !ok || callee(info, c) == nil || !counted(callee(info, c).Origin()) {
+					return true
+				}
+				n++
+				key := "frame-count|" + b.Label + "|" + types.ExprString(c.Fun)
+				if id, ok := s.Lhs[1].(*ast.Ident); ok && id.Name == "_" && !counted(b.Obj) {
+					w.ok(key, s.Pos(), "outermost frame ("+b.Label+" does not itself report a count): nothing encloses it, so the count is not needed")
+				} else if ok && id.Name == "_" {
+					w.violation(key, s.Pos(), "the prefix-byte count returned by "+types.ExprString(c.Fun)+" is discarded: length prefixes of messages nested below this point are trimmed later without the enclosing message's prefix being reduced, so the serialized options are malformed or carry a different value than the stable compiler's")
+				} else {
+					w.ok(key, s.Pos(), "the prefix-byte count is bound to "+types.ExprString(s.Lhs[1]))
+				}
+			case *ast.ExprStmt:
+				if c, ok := s.X.(*ast.CallExpr); ok && callee(info, c) != nil && counted(callee(info, c).Origin()) {
+					n++
+					w.violation("frame-count|"+b.Label+"|"+types.ExprString(c.Fun), s.Pos(), "both results of "+types.ExprString(c.Fun)+" are discarded")
+				}
+			}
+			return true
+		})
+	}
+	w.floor("call sites of the counting marshal functions", n, 3)
+}
